@@ -490,13 +490,240 @@ impl SubCheckT for History {
     }
 }
 
+// ---------------------------------------------------------------------------
+// long implication chains: hundreds of variables, propagation hundreds of literals deep
+// ---------------------------------------------------------------------------
+
+#[derive(Clone, Debug, Serialize, Deserialize)]
+pub struct ChainCase {
+    pub n: u16,
+    pub seed: u64,
+    /// bit 0: a unit clause starts the chain at construction; bits 1-2 both set: a closing clause contradicts the
+    /// end of the chain; bits 2..: how many side clauses
+    pub shape: u8,
+    /// decisions: (position along the chain, scaled; polarity relative to the chain literal)
+    pub decisions: Vec<(u16, bool)>,
+}
+
+pub struct Chains;
+
+type Lit2 = (usize, bool);
+
+/// the harness's own unit propagation to fixpoint: None on a falsified clause
+fn naive_fixpoint(clauses: &[Vec<Lit2>], m: &mut [Option<bool>]) -> bool {
+    loop {
+        let mut changed = false;
+        for c in clauses.iter() {
+            if c.iter().any(|(v, p)| m[*v] == Some(*p)) {
+                continue;
+            }
+            let open: Vec<&Lit2> = c.iter().filter(|(v, _)| m[*v].is_none()).collect();
+            if open.is_empty() {
+                return false;
+            }
+            // a clause whose unassigned literals are all the same literal is unit
+            if open.iter().all(|l| **l == *open[0]) {
+                m[open[0].0] = Some(open[0].1);
+                changed = true;
+            }
+        }
+        if !changed {
+            return true;
+        }
+    }
+}
+
+pub fn run_chains(case: &ChainCase, st: &mut Stats) -> CaseResult {
+    let n = (case.n as usize).clamp(8, 1000);
+    let perm = crate::big::permutation(case.seed, n);
+    let pol: Vec<bool> = (0..n).map(|i| splitmix(case.seed ^ (i as u64).wrapping_mul(0x2545_F491_4F6C_DD1D)) & 1 == 1).collect();
+    let lit = |i: usize| -> Lit2 { (perm[i], pol[i]) };
+    let neg = |l: Lit2| -> Lit2 { (l.0, !l.1) };
+    let mut clauses: Vec<Vec<Lit2>> = Vec::new();
+    for i in 0..n - 1 {
+        let r = splitmix(case.seed ^ 0xABCD ^ (i as u64) << 8);
+        if i >= 3 && r % 7 == 0 {
+            // ternary link: needs one of the two preceding chain literals as well (so that a propagation that
+            // started further back runs through it)
+            let j = i - 1 - ((r >> 8) as usize % 2);
+            clauses.push(vec![neg(lit(i)), neg(lit(j)), lit(i + 1)]);
+        } else {
+            clauses.push(vec![neg(lit(i)), lit(i + 1)]);
+        }
+    }
+    for k in 0..(case.shape >> 3) as usize % 5 {
+        // side clauses over chain variables; three quarters of them hold once the chain is fully assigned
+        let r = splitmix(case.seed ^ 0x51DE ^ k as u64);
+        let (a, b) = ((r as usize) % n, ((r >> 20) as usize) % n);
+        let first = if (r >> 40) % 4 != 0 { lit(a) } else { neg(lit(a)) };
+        clauses.push(vec![first, (perm[b], (r >> 43) & 1 == 1)]);
+    }
+    if case.shape & 0b110 == 0b110 {
+        let k = (splitmix(case.seed ^ 0xC105E) as usize) % (n - 1);
+        clauses.push(vec![neg(lit(n - 1)), neg(lit(k))]);
+    }
+    if case.shape & 1 != 0 {
+        clauses.push(vec![lit(0)]);
+    }
+    // keep the variable count at n
+    let lits: Vec<Vec<Literal>> = clauses.iter().map(|c| c.iter().map(|(v, p)| Literal::new(VarLabel::new_usize(*v), *p)).collect()).collect();
+    let cnf = Cnf::new(&lits);
+    if cnf.num_vars() != n {
+        return Ok(());
+    }
+    let clauses: Vec<Vec<Lit2>> = cnf.clauses().iter().map(|c| c.iter().map(|l| (l.label().value_usize(), l.polarity())).collect()).collect();
+    let sat_flag = |m: &[Option<bool>]| -> bool {
+        clauses.iter().all(|c| c.iter().any(|(v, p)| c.contains(&(*v, !*p))) || c.iter().any(|(v, p)| m[*v] == Some(*p)))
+    };
+    let mut ref_m: Vec<Option<bool>> = vec![None; n];
+    let ok0 = naive_fixpoint(&clauses, &mut ref_m);
+    let solver = SATSolver::new(cnf.clone());
+    ensure!(
+        solver.is_some() == ok0,
+        if ok0 { "C09/unsat-reported-but-satisfiable" } else { "C09/falsified-clause-not-reported" },
+        "{}-variable chain CNF: SATSolver::new returned {} but unit propagation from the unit clauses {}",
+        n,
+        if solver.is_some() { "a solver" } else { "UNSAT" },
+        if ok0 { "reaches a fixpoint without conflict" } else { "falsifies a clause" }
+    );
+    let Some(mut s) = solver else {
+        st.bump("chains.unsat_at_construction");
+        return Ok(());
+    };
+    let compare = |s: &SATSolver, model: &[Option<bool>], ref_m: &[Option<bool>], when: &str| -> CaseResult {
+        for v in 0..n {
+            ensure!(
+                s.is_set(VarLabel::new_usize(v)) == model[v].is_some(),
+                "C09/is-set-disagrees-with-reported-literals",
+                "{}: is_set(x{}) = {} but difference_iter gave {:?}",
+                when,
+                v,
+                s.is_set(VarLabel::new_usize(v)),
+                model[v]
+            );
+            if model[v] != ref_m[v] {
+                return fail(
+                    if model[v].is_none() { "C09/unit-left-unpropagated" } else { "C09/assigned-literal-not-entailed" },
+                    format!(
+                        "{} ({}-variable chain CNF, seed {}): x{} is {:?} in the solver but {:?} at the fixpoint of unit propagation ({} literals assigned there)",
+                        when,
+                        n,
+                        case.seed,
+                        v,
+                        model[v],
+                        ref_m[v],
+                        ref_m.iter().filter(|x| x.is_some()).count()
+                    ),
+                );
+            }
+        }
+        ensure!(
+            s.is_sat() == sat_flag(ref_m),
+            "C09/is-sat-flag",
+            "{}: is_sat() = {} but {} non-tautological clause has no true literal",
+            when,
+            s.is_sat(),
+            if sat_flag(ref_m) { "no" } else { "some" }
+        );
+        Ok(())
+    };
+    let mut model: Vec<Option<bool>> = vec![None; n];
+    for l in s.difference_iter() {
+        model[l.label().value_usize()] = Some(l.polarity());
+    }
+    compare(&s, &model, &ref_m, "after construction")?;
+    let mut stack: Vec<(Vec<Option<bool>>, Vec<Option<bool>>, u128)> = vec![(model.clone(), ref_m.clone(), s.cur_hash())];
+    let mut deepest = ref_m.iter().filter(|x| x.is_some()).count();
+    for (k, (pos, rel)) in case.decisions.iter().enumerate() {
+        // positions are biased towards the start of the chain (the first decision often is its first link)
+        let i0 = pick(*pos, n);
+        let i = if k == 0 && pos & 1 == 0 { 0 } else { i0 * i0 / n };
+        let (v, p) = (perm[i], pol[i] == *rel);
+        let (cur_model, cur_ref, _) = stack.last().unwrap().clone();
+        if cur_model[v].is_some() {
+            continue;
+        }
+        let mut next_ref = cur_ref.clone();
+        next_ref[v] = Some(p);
+        let ok = naive_fixpoint(&clauses, &mut next_ref);
+        let res = s.decide(Literal::new(VarLabel::new_usize(v), p));
+        let when = format!("decision #{} x{} = {} (chain position {})", k, v, p, i);
+        ensure!(
+            matches!(res, DecisionResult::UNSAT) != ok,
+            if ok { "C09/unsat-reported-but-satisfiable" } else { "C09/falsified-clause-not-reported" },
+            "{}: decide returned {} but unit propagation {}",
+            when,
+            if matches!(res, DecisionResult::UNSAT) { "UNSAT" } else { "no conflict" },
+            if ok { "reaches a fixpoint without conflict" } else { "falsifies a clause" }
+        );
+        if !ok {
+            st.bump("chains.conflicts");
+            continue;
+        }
+        let mut next_model = cur_model.clone();
+        for l in s.difference_iter() {
+            next_model[l.label().value_usize()] = Some(l.polarity());
+        }
+        let gained = next_ref.iter().filter(|x| x.is_some()).count() - cur_ref.iter().filter(|x| x.is_some()).count();
+        deepest = deepest.max(gained);
+        compare(&s, &next_model, &next_ref, &when)?;
+        stack.push((next_model, next_ref, s.cur_hash()));
+    }
+    // pop everything: each pop restores the recorded state
+    while stack.len() > 1 {
+        stack.pop();
+        s.pop();
+        let (m, r, h) = stack.last().unwrap().clone();
+        ensure!(s.cur_hash() == h, "C09/pop-did-not-restore-state", "after a pop the hash differs from the one recorded before the matching decision");
+        for v in 0..n {
+            ensure!(
+                s.is_set(VarLabel::new_usize(v)) == m[v].is_some(),
+                "C09/pop-did-not-restore-state",
+                "after a pop x{} is {} but it was {} before the matching decision",
+                v,
+                if s.is_set(VarLabel::new_usize(v)) { "set" } else { "unset" },
+                if m[v].is_some() { "set" } else { "unset" }
+            );
+        }
+        ensure!(s.is_sat() == sat_flag(&r), "C09/pop-did-not-restore-state", "after a pop is_sat() differs from the recorded state");
+    }
+    st.flag("chains.one_step_implied_more_than_256_literals", deepest > 256);
+    st.flag("chains.one_step_implied_more_than_64_literals", deepest > 64);
+    if deepest > 32 {
+        st.mark_nontrivial();
+    }
+    Ok(())
+}
+
+impl SubCheckT for Chains {
+    type Case = ChainCase;
+    const NAME: &'static str = "long_implication_chains";
+    const RULE: &'static str = "CNFs over 8..1000 variables made of one implication chain through all variables (pseudo-random variable order and polarities, every seventh link ternary with an earlier chain literal, up to 4 binary side clauses, optionally a unit clause that starts the chain at construction and a closing clause that contradicts its end), then up to 6 decisions at random chain positions and pops: UNSAT exactly when the harness's own naive fixpoint propagator falsifies a clause; otherwise the model rebuilt from difference_iter equals that fixpoint literal for literal (unit propagation has a unique fixpoint, so this is soundness and completeness at once), is_set agrees, is_sat is the satisfied flag of the fixpoint, and pops restore hash, assigned set and flag. Non-trivial: some step implied more than 32 literals";
+    fn cases(tier: Tier) -> u32 {
+        tier.pick(300, 8000)
+    }
+    fn strategy(_tier: Tier) -> BoxedStrategy<ChainCase> {
+        (
+            prop_oneof![2 => 8u16..=64, 3 => 65u16..=400, 3 => 401u16..=1000],
+            any::<u64>(),
+            any::<u8>(),
+            proptest::collection::vec((any::<u16>(), prop_oneof![4 => Just(true), 1 => Just(false)]), 0..=6),
+        )
+            .prop_map(|(n, seed, shape, decisions)| ChainCase { n, seed, shape, decisions })
+            .boxed()
+    }
+    fn run(case: &ChainCase, st: &mut Stats) -> CaseResult {
+        run_chains(case, st)
+    }
+}
+
 pub fn property() -> Property {
     Property {
         id: "C09",
-        subs: vec![sub::<History>()],
+        subs: vec![sub::<History>(), sub::<Chains>()],
         fuzz: vec![FuzzSpec { target: "sat_history", runs: 12000, max_len: 300 }],
         assumptions: vec![
-            "CNFs over <= 6 variables, <= 10 clauses; histories of <= 40 decide/pop",
+            "truth-table part: CNFs over <= 6 variables, <= 10 clauses, histories of <= 40 decide/pop; sub-check long_implication_chains: up to 1000 variables, oracle = the harness's naive unit propagation (the library recurses once per implied literal: chains are capped at 1000 links so that its recursion stays within an 8 MB stack)",
             "pop is only issued after a successful decide (the API forbids popping the initial state)",
             "hash => residual is asserted for every pair of visited states; beyond 26 literal occurrences the product of per-occurrence primes can wrap around 2^128, and a collision there (probability about 2^-127 per pair) would be reported as a violation, as the property states no limit",
             "the partial model is reconstructed from difference_iter (no hook needed) and cross-checked with is_set",
